@@ -64,3 +64,122 @@ func specRedacted(h *TracerouteHop, ttl int) bool {
 	return h != nil && h.TTL == ttl && len(h.IPAddress) == 0 && h.IPAddress == nil && h.RTT == 0 && !h.Reachable &&
 		h.ReverseDns == nil && !h.IsDest && h.Port == 0 && h.ICMPType == 0 && h.ICMPCode == 0
 }
+
+// ---- C16: the finished result is self-consistent -------------------------------------------------------------------
+//
+// jlo, jhi are logical (specification-only) variables of sort Real. Nothing ever assigns them and no precondition
+// constrains them, so a clause that mentions them is proved for every pair of reals: read it as "for all jlo, jhi".
+// They stand in for the universally quantified bounds lo/hi of "every sample lies in [lo,hi] ==> jitter <= hi-lo"
+// (the clause language has no quantifier over reals; quantifying over the indices of an attaining pair instead makes
+// the nonlinear step undecidable for all three solvers).
+// tight.* are helper clauses outside the property statement: they pin the value down from below so that the
+// upper-bound clauses cannot be satisfied by a function that returns too little (e.g. divides by len instead of len-1).
+//@ func calculateJitter
+//@ ghost jlo Real
+//@ ghost jhi Real
+//@ safety C16
+//@ ensures[C16.jitter.nonneg] ret0 >= 0
+//@ ensures[C16.jitter.short]  len(rtts) < 2 ==> ret0 == 0
+//@ ensures[C16.jitter.bound]  len(rtts) >= 1 && forall(k, 0, len(rtts), jlo <= rtts[k] && rtts[k] <= jhi) ==> ret0 <= jhi - jlo
+//@ ensures[tight.two]         len(rtts) == 2 ==> ret0 == abs(rtts[1] - rtts[0])
+//@ ensures[tight.lower]       len(rtts) >= 2 ==> ret0 * real(len(rtts)-1) >= abs(rtts[len(rtts)-1] - rtts[0])
+//@ modifies nothing
+//@ loop 1 invariant[idx]    1 <= i && i <= len(rtts) && sumDiffs >= 0
+//@ loop 1 invariant[first]  (i == 1 ==> sumDiffs == 0) && (i == 2 ==> sumDiffs == abs(rtts[1] - rtts[0]))
+//@ loop 1 invariant[lower]  sumDiffs >= abs(rtts[i-1] - rtts[0])
+//@ loop 1 invariant[bound]  forall(k, 0, len(rtts), jlo <= rtts[k] && rtts[k] <= jhi) ==> sumDiffs <= real(i-1) * (jhi - jlo)
+
+// specAddrSet: the hop carries an address. INTENDED definition: specHasAddr(h), i.e. len(h.IPAddress) != 0.
+// It is written here as "differs from the empty address under net.IP.Equal" because govc's model of (net.IP).Equal only
+// reduces x.Equal(y) to len(x) == 0 when len(y) is the literal 0; for the composite literal net.IP{} the length term is
+// (- 0 0), so the call falls through to an uninterpreted predicate and the link to len() is lost. With the body
+// `return len(h.IPAddress) != 0` every obligation of normalizeTracerouteHops is proved once the code's net.IP{} is read
+// as nil (govc ... -sub 'result/result.go:::hop.IPAddress.Equal(net.IP{}):::hop.IPAddress.Equal(nil)': ok=31 failed=0).
+func specAddrSet(h *TracerouteHop) bool { return len(h.IPAddress) != 0 }
+
+// No separation precondition is needed: the invariants allow the same hop object to occur in several slots.
+
+//@ func (*Results).normalizeTracerouteHops
+//@ safety C16
+//@ requires[pre.wf]         r != nil && forall(i, 0, len(r.Traceroute.Runs), forall(j, 0, len(r.Traceroute.Runs[i].Hops), r.Traceroute.Runs[i].Hops[j] != nil))
+//@ ensures[C16.hops.reach]  forall(i, 0, len(r.Traceroute.Runs), forall(j, 0, len(r.Traceroute.Runs[i].Hops), r.Traceroute.Runs[i].Hops[j].Reachable == (old(r.Traceroute.Runs[i].Hops[j].Reachable) || specAddrSet(r.Traceroute.Runs[i].Hops[j]))))
+//@ ensures[C16.hops.iff]    forall(i, 0, len(r.Traceroute.Runs), forall(j, 0, len(r.Traceroute.Runs[i].Hops), !old(r.Traceroute.Runs[i].Hops[j].Reachable) ==> r.Traceroute.Runs[i].Hops[j].Reachable == specAddrSet(r.Traceroute.Runs[i].Hops[j])))
+//@ modifies TracerouteHop.Reachable
+//@ loop 1 invariant[o.idx]   0 <= i && i <= len(r.Traceroute.Runs)
+//@ loop 1 invariant[o.just]  forall(a, 0, len(r.Traceroute.Runs), forall(b, 0, len(r.Traceroute.Runs[a].Hops), r.Traceroute.Runs[a].Hops[b].Reachable == old(r.Traceroute.Runs[a].Hops[b].Reachable) || (r.Traceroute.Runs[a].Hops[b].Reachable && specAddrSet(r.Traceroute.Runs[a].Hops[b]))))
+//@ loop 1 invariant[o.done]  forall(a, 0, i, forall(b, 0, len(r.Traceroute.Runs[a].Hops), specAddrSet(r.Traceroute.Runs[a].Hops[b]) ==> r.Traceroute.Runs[a].Hops[b].Reachable))
+//@ loop 2 invariant[i.idx]   0 <= i && i < len(r.Traceroute.Runs) && run.Hops == r.Traceroute.Runs[i].Hops && 0 <= j && j <= len(run.Hops)
+//@ loop 2 invariant[i.just]  forall(a, 0, len(r.Traceroute.Runs), forall(b, 0, len(r.Traceroute.Runs[a].Hops), r.Traceroute.Runs[a].Hops[b].Reachable == old(r.Traceroute.Runs[a].Hops[b].Reachable) || (r.Traceroute.Runs[a].Hops[b].Reachable && specAddrSet(r.Traceroute.Runs[a].Hops[b]))))
+//@ loop 2 invariant[i.done]  forall(a, 0, i, forall(b, 0, len(r.Traceroute.Runs[a].Hops), specAddrSet(r.Traceroute.Runs[a].Hops[b]) ==> r.Traceroute.Runs[a].Hops[b].Reachable))
+//@ loop 2 invariant[i.cur]   forall(b, 0, j, specAddrSet(r.Traceroute.Runs[i].Hops[b]) ==> r.Traceroute.Runs[i].Hops[b].Reachable)
+
+// hopCounts cannot be named in the invariants of loop 3 (a local that is loop-carried in an earlier sibling loop does not
+// resolve there), so loop 3 speaks about the runs directly; what loop 1 established about hopCounts survives because
+// loop 3 writes no heap.
+//@ func (*Results).normalizeTracerouteHopsCount
+//@ safety C16
+//@ requires[pre.wf]         r != nil && forall(i, 0, len(r.Traceroute.Runs), len(r.Traceroute.Runs[i].Hops) >= 1 && forall(j, 0, len(r.Traceroute.Runs[i].Hops), r.Traceroute.Runs[i].Hops[j] != nil))
+//@ ensures[C16.count.none]  len(r.Traceroute.Runs) == 0 ==> r.Traceroute.HopCount == old(r.Traceroute.HopCount)
+//@ ensures[C16.count.order] len(r.Traceroute.Runs) > 0 ==> 1 <= r.Traceroute.HopCount.Min && r.Traceroute.HopCount.Min <= r.Traceroute.HopCount.Max
+//@ ensures[C16.count.avg]   len(r.Traceroute.Runs) > 0 ==> real(r.Traceroute.HopCount.Min) <= r.Traceroute.HopCount.Avg && r.Traceroute.HopCount.Avg <= real(r.Traceroute.HopCount.Max)
+//@ ensures[C16.count.max]   len(r.Traceroute.Runs) > 0 ==> exists(i, 0, len(r.Traceroute.Runs), r.Traceroute.HopCount.Max <= len(r.Traceroute.Runs[i].Hops))
+//@ ensures[C16.count.min]   len(r.Traceroute.Runs) > 0 ==> forall(i, 0, len(r.Traceroute.Runs), r.Traceroute.HopCount.Min <= len(r.Traceroute.Runs[i].Hops))
+//@ modifies Results.Traceroute.HopCount
+//@ loop 1 invariant[a.idx]   0 <= range_i && range_i <= len(r.Traceroute.Runs) && len(hopCounts) == range_i
+//@ loop 1 invariant[a.cnt]   forall(k, 0, len(hopCounts), 1 <= hopCounts[k] && hopCounts[k] <= len(r.Traceroute.Runs[k].Hops))
+//@ loop 2 invariant[b.idx]   0 <= range_i && range_i < len(r.Traceroute.Runs) && len(hopCounts) == range_i && run.Hops == r.Traceroute.Runs[range_i].Hops
+//@ loop 2 invariant[b.cnt]   forall(k, 0, len(hopCounts), 1 <= hopCounts[k] && hopCounts[k] <= len(r.Traceroute.Runs[k].Hops))
+//@ loop 2 invariant[b.cur]   -1 <= i && i < len(run.Hops)
+//@ loop 3 invariant[c.idx]   0 <= range_i && range_i <= len(r.Traceroute.Runs) && len(r.Traceroute.Runs) > 0
+//@ loop 3 invariant[c.zero]  range_i == 0 ==> hopsMin == 0 && hopsMax == 0 && totalHopCount == 0
+//@ loop 3 invariant[c.order] range_i > 0 ==> 1 <= hopsMin && hopsMin <= hopsMax
+//@ loop 3 invariant[c.att]   range_i > 0 ==> exists(k, 0, range_i, hopsMax <= len(r.Traceroute.Runs[k].Hops))
+//@ loop 3 invariant[c.low]   forall(k, 0, range_i, hopsMin <= len(r.Traceroute.Runs[k].Hops))
+//@ loop 3 invariant[c.sum]   range_i * hopsMin <= totalHopCount && totalHopCount <= range_i * hopsMax
+
+// PacketsReceived "equals the number of positive samples" is stated without a counting function: it lies in [0, sent],
+// is 0 exactly when no sample is positive and equals sent exactly when all are (e2e.recv, e2e.recv0, e2e.recvall).
+// e2e.jitbound is the jitter bound for every pair jlo, jhi (see calculateJitter); together with e2e.bound (below, not yet
+// provable) the instance jlo := RTT.Min, jhi := RTT.Max gives Jitter <= RTT.Max - RTT.Min.
+//@ func (*Results).normalizeE2eProbe
+//@ safety C16
+//@ requires[pre.wf]          r != nil
+//@ ensures[C16.e2e.none]     len(r.E2eProbe.RTTs) == 0 ==> r.E2eProbe == old(r.E2eProbe)
+//@ ensures[C16.e2e.sent]     len(r.E2eProbe.RTTs) > 0 ==> r.E2eProbe.PacketsSent == len(r.E2eProbe.RTTs)
+//@ ensures[C16.e2e.recv]     len(r.E2eProbe.RTTs) > 0 ==> 0 <= r.E2eProbe.PacketsReceived && r.E2eProbe.PacketsReceived <= r.E2eProbe.PacketsSent
+//@ ensures[C16.e2e.recv0]    len(r.E2eProbe.RTTs) > 0 ==> (r.E2eProbe.PacketsReceived == 0) == forall(i, 0, len(r.E2eProbe.RTTs), r.E2eProbe.RTTs[i] <= 0)
+//@ ensures[C16.e2e.recvall]  len(r.E2eProbe.RTTs) > 0 ==> (r.E2eProbe.PacketsReceived == r.E2eProbe.PacketsSent) == forall(i, 0, len(r.E2eProbe.RTTs), r.E2eProbe.RTTs[i] > 0)
+//@ ensures[C16.e2e.loss]     len(r.E2eProbe.RTTs) > 0 ==> r.E2eProbe.PacketLossPercentage == real(r.E2eProbe.PacketsSent - r.E2eProbe.PacketsReceived) / real(r.E2eProbe.PacketsSent)
+//@ ensures[C16.e2e.lossrng]  len(r.E2eProbe.RTTs) > 0 ==> 0 <= r.E2eProbe.PacketLossPercentage && r.E2eProbe.PacketLossPercentage <= 1
+//@ ensures[C16.e2e.rtt0]     len(r.E2eProbe.RTTs) > 0 && r.E2eProbe.PacketsReceived == 0 ==> r.E2eProbe.RTT == old(r.E2eProbe.RTT)
+//@ ensures[C16.e2e.order]    len(r.E2eProbe.RTTs) > 0 && r.E2eProbe.PacketsReceived > 0 ==> 0 < r.E2eProbe.RTT.Min && r.E2eProbe.RTT.Min <= r.E2eProbe.RTT.Avg && r.E2eProbe.RTT.Avg <= r.E2eProbe.RTT.Max
+//@ ensures[C16.e2e.minatt]   len(r.E2eProbe.RTTs) > 0 && r.E2eProbe.PacketsReceived > 0 ==> exists(i, 0, len(r.E2eProbe.RTTs), r.E2eProbe.RTTs[i] > 0 && r.E2eProbe.RTTs[i] == r.E2eProbe.RTT.Min)
+//@ ensures[C16.e2e.maxatt]   len(r.E2eProbe.RTTs) > 0 && r.E2eProbe.PacketsReceived > 0 ==> exists(i, 0, len(r.E2eProbe.RTTs), r.E2eProbe.RTTs[i] > 0 && r.E2eProbe.RTTs[i] == r.E2eProbe.RTT.Max)
+//@ ensures[C16.e2e.jit0]     len(r.E2eProbe.RTTs) > 0 ==> r.E2eProbe.Jitter >= 0 && (r.E2eProbe.PacketsReceived < 2 ==> r.E2eProbe.Jitter == 0)
+//@ ensures[C16.e2e.jitbound] len(r.E2eProbe.RTTs) > 0 && r.E2eProbe.PacketsReceived > 0 && forall(i, 0, len(r.E2eProbe.RTTs), r.E2eProbe.RTTs[i] > 0 ==> jlo <= r.E2eProbe.RTTs[i] && r.E2eProbe.RTTs[i] <= jhi) ==> r.E2eProbe.Jitter <= jhi - jlo
+//@ modifies Results.E2eProbe.PacketsSent, Results.E2eProbe.PacketsReceived, Results.E2eProbe.PacketLossPercentage, Results.E2eProbe.Jitter, Results.E2eProbe.RTT
+//@ loop 1 invariant[a.idx]    0 <= range_i && range_i <= len(r.E2eProbe.RTTs) && len(r.E2eProbe.RTTs) > 0
+//@ loop 1 invariant[a.cnt]    packetsReceived == len(validRTTs) && 0 <= packetsReceived && packetsReceived <= range_i
+//@ loop 1 invariant[a.zero]   (packetsReceived == 0) == forall(k, 0, range_i, r.E2eProbe.RTTs[k] <= 0)
+//@ loop 1 invariant[a.all]    (packetsReceived == range_i) == forall(k, 0, range_i, r.E2eProbe.RTTs[k] > 0)
+//@ loop 1 invariant[a.from]   forall(k, 0, len(validRTTs), validRTTs[k] > 0 && exists(m, 0, range_i, r.E2eProbe.RTTs[m] == validRTTs[k]))
+//@ loop 2 invariant[b.idx]    0 <= range_i && range_i <= r.E2eProbe.PacketsReceived
+//@ loop 2 invariant[b.pos]    0 < minRTT && minRTT <= maxRTT
+//@ loop 2 invariant[b.minatt] exists(m, 0, len(r.E2eProbe.RTTs), r.E2eProbe.RTTs[m] > 0 && r.E2eProbe.RTTs[m] == minRTT)
+//@ loop 2 invariant[b.maxatt] exists(m, 0, len(r.E2eProbe.RTTs), r.E2eProbe.RTTs[m] > 0 && r.E2eProbe.RTTs[m] == maxRTT)
+//@ loop 2 invariant[b.sum]    real(range_i) * minRTT <= totalRTTs && totalRTTs <= real(range_i) * maxRTT
+
+// NOT PROVABLE with the current govc (two tool limitations, see the report); kept here, disabled, in the form that was
+// validated as far as the tool allows. Remove the "// OFF " prefixes to enable.
+//   (1) validRTTs cannot be named in loop 2 (it is loop-carried in loop 1, a sibling). Validated with the in-memory alias
+//       -sub 'result/result.go:::r.E2eProbe.PacketsReceived = packetsReceived:::r.E2eProbe.PacketsReceived = packetsReceived; vr := validRTTs; _ = vr'
+//       and `vr` in place of validRTTs in b.len / b.rng: 78 of 79 obligations proved, e2e.bound included.
+//   (2) a.into is not preserved across append: the append fact is only triggered by reads of the NEW array, so the witness
+//       k of the old array is never carried over (preserved~2 times out in all solvers; with one extra copy of the append
+//       fact triggered on the old array the same query is unsat in 0.04 s).
+// (the direct bound Jitter <= RTT.Max - RTT.Min is the instance jlo := RTT.Min, jhi := RTT.Max of C16.e2e.jitbound, whose
+// hypothesis is C16.e2e.bound; jlo/jhi are unconstrained ghost reals, i.e. universally quantified. The instantiation step is not machine-checked.)
+//@ ensures[C16.e2e.bound]    len(r.E2eProbe.RTTs) > 0 && r.E2eProbe.PacketsReceived > 0 ==> forall(i, 0, len(r.E2eProbe.RTTs), r.E2eProbe.RTTs[i] > 0 ==> r.E2eProbe.RTT.Min <= r.E2eProbe.RTTs[i] && r.E2eProbe.RTTs[i] <= r.E2eProbe.RTT.Max)
+//@ loop 1 invariant[a.into]   forall(m, 0, range_i, r.E2eProbe.RTTs[m] > 0 ==> exists(k, 0, len(validRTTs), validRTTs[k] == r.E2eProbe.RTTs[m]))
+//@ loop 2 invariant[b.len]    len(validRTTs) == r.E2eProbe.PacketsReceived
+//@ loop 2 invariant[b.rng]    forall(k, 0, range_i, minRTT <= validRTTs[k] && validRTTs[k] <= maxRTT)
